@@ -136,6 +136,13 @@ def work(job):
                                 line=o.line, case=o.case, label=o.label, vacuity=True))
                 continue
             r = smt.check_valid(o.premises, o.goal, timeout_ms=timeout_ms)
+            if r.status == "unknown" and not os.environ.get("PVC_NO_RETRY"):
+                # one more attempt with three times the budget before anything is called undecided: a verdict must not
+                # flip because the machine happened to be busy (an obligation that is really out of reach costs a few
+                # minutes more, on a changed tree only)
+                t_first = r.time_s
+                r = smt.check_valid(o.premises, o.goal, timeout_ms=3 * timeout_ms)
+                r.time_s += t_first
             if r.status == "unknown":
                 # small-scope retry: a counter-model under extra restrictions is still a counter-model
                 for bound in (3, 8):
